@@ -19,7 +19,7 @@ EXT = {
     "C07": " Also: map / switch / reduce / record-replay cases, captured errors with differing capture options, a lazily registered polymorphic bundle family; building (wiring and make_executor) is serialised in threaded contexts. Round 4: the same recording program run three times over a carried GlobalState (sparse and cycle-aligned layouts) leaves the same buffer. Round 5: cases that select a GlobalContext on their own thread while other threads build and run. Round 6: the same graph built and run twice under one selected GlobalContext (every build sees the user's state as handed in; it still holds the user's value afterwards).",
     "C08": " Also: collection-shaped feedback (reader delta == writer delta one step later), feedback loops inside try_except bodies with captured faults, passive readers next to active twins. Round 5: feedback inside keyed-map children.",
     "C09": " Also: nested calls inside switch / map instances (standalone-instance oracle with the F18 emulation) and sub-graphs whose result re-arranges one structured 2x2 parameter (inline, nested, nested twice vs the re-arranged source). Round 5: sub-graphs that capture ports of the enclosing graph (two projections of one output). Round 6: wake-ups of sub-graphs that run as dynamic children (map_ per key / per list element, mesh_) by the C02 trace oracle; passive() call-site arguments only where every consumer of the parameter is a plain node.",
-    "C10": " Also: per-key error capture twins (failure isolation), two multiplexed dictionaries with differing key sets, nested calls inside the mapped function, maps nested in map instances over a shared dictionary. Round 6: the mapped dictionary reaches map_ through a re-pointed reference (selection between two dictionaries with the same keys): the surviving instances are re-bound, see the new element's value as a tick and keep their state; pass_through arguments produced by a chain of copy nodes.",
+    "C10": " Also: per-key error capture twins (failure isolation), two multiplexed dictionaries with differing key sets, nested calls inside the mapped function, maps nested in map instances over a shared dictionary. Round 6: the mapped dictionary reaches map_ through a re-pointed reference (selection between two dictionaries with the same keys): the surviving instances are re-bound, see the new element's value as a tick and keep their state; pass_through arguments produced by a chain of copy nodes; maps with an EXPLICIT key set (__keys__): instances live with their key in the set, keys mapped before their element exists, dictionary keys that are never mapped; F33 witness (key set of a map output).",
     "C11": " Also: trees with 65-140 live elements, dictionary-valued reductions with a key-wise merge combiner. Round 4: ordered (non-associative) reductions: left fold in key order from the zero over contiguous keys, with an order-sensitive combiner. Round 5: a live, re-pointed zero (followed while the collection is empty / holds one element). Round 6: the reduced dictionary is a map_ output whose elements are references re-pointed by a broadcast flag while the element is silent (operator, node and sub-graph combiners, with / without zero).",
     "C12": " Also: several unmatched keys with a default branch, nested calls inside branches, twin switches differing only in reload-on-tick. Round 4: switch over one structured argument assembled from two ports (branch returns the parameter / a re-assembly / nodes on its elements); selections on held values. Round 6: branches that return their parameter; branches whose result is a SET (the switch owns a collection-valued output): every instantiation - also the same spec again under reload-on-tick or default-to-default - starts from the empty set, deltas cohere with the previous reading.",
     "C13": " Also: set / dictionary targets with retarget deltas (also when the old target writes in the retarget cycle), selections between sibling elements of one list output. Round 4: key-set (keys_) and dictionary readers inline, nested and nested twice below a re-pointed dictionary reference. Round 5: references handed through a nested pass-through, judged at the retarget cycles. Round 6: stdlib if_cmp (three-way selection) in the random programs; tsd[key] (getitem_) with a ticking key as the source of the reference (re-point, absent key, re-bind; readers inline and nested); a non-de-duplicating producer (republish) between the reference and its readers - an unchanged reference applied again never ticks.",
